@@ -100,7 +100,7 @@ fn view(n: &NetNode) -> (BTreeMap<u64, PeerView>, BTreeMap<Vec<u8>, u64>) {
 pub fn run_case(case: &Case) -> (Vec<(String, String)>, Info) {
     let mut info = Info::default();
     let mut v: Vec<(String, String)> = vec![];
-    let ncfg = NodeCfg { gp: 100, heartbeat: 100, social_stake: 0, loading_completed: true };
+    let ncfg = NodeCfg { gp: 100, heartbeat: 100, social_stake: 0, loading_completed: true, prune: 8 };
     let clock = Arc::new(AtomicU64::new(5_000_000));
     let mut nodes = vec![
         NetNode::new(1, ncfg, clock.clone(), 1, 10, MemIO::new()),
